@@ -122,3 +122,12 @@ Theorem C07_value_equals_runtime_example :
   agree nat (prop_run nat nat ToySem.backend ToySem.prog []) (eval nat nat ToySem.opsem 0 ToySem.prog [7] []).
 Proof. exact (conj ToySem.propagated (conj ToySem.executed ToySem.instance)). Qed.
 Print Assumptions C07_value_equals_runtime_example.
+
+(* initializer: the array itself (dtype normalised), typed by its own dtype and shape, for any backend / backend result *)
+Theorem C07_initializer_value_typed :
+  forall e s c bk r, c_strict c = false ->
+  construct c bk (initializer_node e s) r
+    = Ok [("arg", Some (Tensor (norm_elem e) (Some (map DConst s))), Some (VArr (norm_elem e) s), false)] /\
+  conforms (Tensor (norm_elem e) (Some (map DConst s))) (VArr (norm_elem e) s) = true.
+Proof. exact initializer_value_typed. Qed.
+Print Assumptions C07_initializer_value_typed.
